@@ -2,7 +2,10 @@ module verifharness
 
 go 1.22
 
-require github.com/LemoFoundationLtd/lemochain-core v0.0.0
+require (
+	github.com/LemoFoundationLtd/lemochain-core v0.0.0
+	github.com/rcrowley/go-metrics v0.0.0-20200313005456-10cdbea86bc0
+)
 
 require (
 	github.com/aristanetworks/goarista v0.0.0-20170210015632-ea17b1a17847 // indirect
@@ -11,7 +14,6 @@ require (
 	github.com/inconshreveable/log15 v0.0.0-20171019012758-0decfc6c20d9 // indirect
 	github.com/mattn/go-colorable v0.1.4 // indirect
 	github.com/mattn/go-isatty v0.0.11 // indirect
-	github.com/rcrowley/go-metrics v0.0.0-20200313005456-10cdbea86bc0 // indirect
 	github.com/rs/cors v1.5.1-0.20180731071213-15587285ef6b // indirect
 	github.com/syndtr/goleveldb v0.0.0-20180708030551-c4c61651e9e3 // indirect
 	golang.org/x/crypto v0.0.0-20200728195943-123391ffb6de // indirect
